@@ -90,7 +90,7 @@ def scan_collect(prop, prefixes, camp_driver, tier, verdict, module="Campaign", 
         # (and vacuum) with a ValueError: a loud rejection, which C20 allows
         loud = s["fam"].startswith("Riemann") and err.startswith("ValueError")
         if fin and not loud:
-            verdict.fail({"cls": s["fam"], "clause": "FIN.raised", "cfg": cfg_key(s)}, {"state": s, "error": err})
+            verdict.fail({"cls": s["fam"], "clause": "FIN.raised", "cfg": dict(cfg_key(s), error_type=err.split(":")[0].strip())}, {"state": s, "error": err})
     if errors and not fin:
         print("# note: %d configurations raised (judged by C20): e.g. %s" % (len(errors), errors[0][1].splitlines()[0]))
     tv = core.validate_trace("TraceScan", "TraceScan.cfg", events, prop)
